@@ -61,14 +61,15 @@ class TooManyExpectedErrors(Predicate):
     (http://drive5.com/usearch/).
     """
 
-    def __init__(self, max_errors: float):
+    def __init__(self, max_errors: float, quality_base: int = 33):
         self.max_errors = max_errors
+        self.quality_base = quality_base
 
     def __repr__(self):
         return f"TooManyExpectedErrors(max_errors={self.max_errors})"
 
     def test(self, read, info: ModificationInfo):
-        return expected_errors(read.qualities) > self.max_errors
+        return expected_errors(read.qualities, self.quality_base) > self.max_errors
 
 
 class TooHighAverageErrorRate(Predicate):
@@ -78,12 +79,13 @@ class TooHighAverageErrorRate(Predicate):
     have varying lengths, such as for long read sequencing technologies.
     """
 
-    def __init__(self, max_error_rate: float):
+    def __init__(self, max_error_rate: float, quality_base: int = 33):
         if not 0.0 < max_error_rate < 1.0:
             raise ValueError(
                 f"max_error_rate must be between 0.0 and 1.0, got {max_error_rate}."
             )
         self.max_error_rate = max_error_rate
+        self.quality_base = quality_base
 
     def __repr__(self):
         return f"TooHighAverageErrorRate(max_error_rate={self.max_error_rate}"
@@ -92,7 +94,9 @@ class TooHighAverageErrorRate(Predicate):
         read_length = len(read)
         if read_length == 0:
             return False
-        return (expected_errors(read.qualities) / read_length) > self.max_error_rate
+        return (
+            expected_errors(read.qualities, self.quality_base) / read_length
+        ) > self.max_error_rate
 
 
 class TooManyN(Predicate):
